@@ -532,6 +532,14 @@ def run_harness(ub, h):
         o = {"name": r["property"], "desc": r["description"], "status": r["status"],
              "file": loc.get("file", ""), "line": loc.get("line", ""), "function": fn}
         o["internal"] = fn.startswith("__CPROVER_contracts") or r["property"].startswith("__CPROVER_contracts")
+        if ".no-body." in r["property"] or r["description"].startswith("no body for callee"):
+            callee = r["description"].replace("no body for callee", "").strip()
+            if any(re.search(p, callee) for p in h.get("allow_no_body", []) + u.get("allow_no_body", [])):
+                res.setdefault("externals_arbitrary", []).append(callee)
+                continue
+            if r["status"] == "FAILURE":
+                res.update(status="undecided", reason="reached external function without body or contract: %s (add a stub/contract or list it under allow_no_body)" % callee)
+                return res
         if r["status"] not in ("SUCCESS", "FAILURE", "UNKNOWN"):
             res.update(status="undecided", reason="obligation %s has status %s" % (r["property"], r["status"]))
             return res
